@@ -342,3 +342,51 @@ Proof.
     apply map_ext_in. intros [s v] Hx. cbn. f_equal. eapply Forall_forall in IH; [|exact Hx]. apply IH.
     eapply forallb_forall in W2; [exact W2|exact Hx].
 Qed.
+
+(* ---- the converse of [enc_py_eqv]: equal by class and attribute values => the encodings are == ---- *)
+Lemma list_go_enc_conv xs : Forall (fun x => forall b, opy_eqv x b = true -> py_eqv (enc x) (enc b) = true) xs ->
+  forall ys, olist_go xs ys = true -> list_go (map enc xs) (map enc ys) = true.
+Proof.
+  induction 1 as [|x xs Hx _ IH]; intros [|y ys] H; cbn in *; try discriminate; [reflexivity|].
+  apply andb_true_iff in H as [H1 H2]. rewrite (Hx y H1). cbn. apply IH. exact H2.
+Qed.
+
+Lemma attrs_eqv_enc xs ys :
+  Forall (fun av => forall b, opy_eqv (snd av) b = true -> py_eqv (enc (snd av)) (enc b) = true) xs ->
+  Nat.eqb (length xs) (length ys) = true -> oattr_go ys xs = true ->
+  py_eqv (VDict (enc_attrs xs)) (VDict (enc_attrs ys)) = true.
+Proof.
+  intros IH HL HG. rewrite py_eqv_dict. unfold enc_attrs at 1 2. rewrite !map_length, HL. cbn [andb].
+  clear HL. revert HG. induction IH as [|[s v] xs Hv _ IHk]; intros HG; [reflexivity|].
+  cbn in HG. destruct (assoc_attr s ys) as [v'|] eqn:E; [|discriminate].
+  apply andb_true_iff in HG as [H1 H2].
+  change (enc_attrs ((s, v) :: xs)) with ((AStr s, enc v) :: enc_attrs xs). cbn [dict_go].
+  rewrite assoc_enc_attrs, E. cbn [option_map]. cbn in Hv. rewrite (Hv v' H1). cbn. apply IHk. exact H2.
+Qed.
+
+Theorem opy_eqv_enc : forall a b, opy_eqv a b = true -> py_eqv (enc a) (enc b) = true.
+Proof.
+  induction a as [a|xs IH|xs IH|kvs IH|xs|xs|cls attrs IH] using ovalue_ind'; intros b H.
+  - destruct b; cbn in H; try discriminate. exact H.
+  - destruct b as [ |ys| | | | | ]; try discriminate H.
+    rewrite opy_eqv_list in H. cbn [enc]. rewrite py_eqv_list. apply list_go_enc_conv; assumption.
+  - destruct b as [ | |ys| | | | ]; try discriminate H.
+    rewrite opy_eqv_tuple in H. cbn [enc]. rewrite py_eqv_tuple. apply list_go_enc_conv; assumption.
+  - destruct b as [ | | |kvs2| | | ]; try discriminate H.
+    rewrite opy_eqv_dict in H. apply andb_true_iff in H as [HL HG].
+    rewrite !enc_dict, py_eqv_dict. unfold enc_items at 1 2. rewrite !map_length, HL. cbn [andb].
+    clear HL. revert HG. induction IH as [|[k v] kvs Hv _ IHk]; intros HG; [reflexivity|].
+    cbn in HG. destruct (assoc k kvs2) as [v'|] eqn:E; [|discriminate].
+    apply andb_true_iff in HG as [H1 H2].
+    change (enc_items ((k, v) :: kvs)) with ((k, enc v) :: enc_items kvs). cbn [dict_go].
+    rewrite assoc_enc_items, E. cbn [option_map]. cbn in Hv. rewrite (Hv v' H1). cbn. apply IHk. exact H2.
+  - destruct b; cbn in H |- *; try discriminate; exact H.
+  - destruct b; cbn in H |- *; try discriminate; exact H.
+  - destruct b as [ | | | | | |c2 at2]; try discriminate H.
+    rewrite opy_eqv_obj in H. apply andb_true_iff in H as [H HG]. apply andb_true_iff in H as [HC HL].
+    apply pystr_eqb_eq in HC. subst c2.
+    rewrite !enc_obj, py_eqv_dict. cbn [length Nat.eqb andb dict_go assoc].
+    rewrite py_eq_otag, pystr_eqb_refl.
+    rewrite (attrs_eqv_enc attrs at2 IH HL HG). cbn [andb].
+    rewrite py_eq_otag_otag2, py_eq_otag2, pystr_eqb_refl. cbn. rewrite pystr_eqb_refl. reflexivity.
+Qed.
